@@ -3,7 +3,7 @@
 // It re-reads /repo's working tree (cwd must be /repo) and prints lean/ChessVerif/Gen/Funcs.lean:
 // the BODIES of small pure arithmetic Go functions as Lean definitions over `Int` (and `Bool`) with
 // Go's typed wrap-around made explicit, plus the package-level constants/tables they and the
-// theorems refer to.  Usage:  extract_funcs [-o file]   (stdout when -o is absent).
+// theorems refer to.  Usage:  extract_funcs [-o file] [-repo dir]   (stdout when -o is absent).
 //
 // README — the supported subset (anything else ⇒ lib.Die, exit status 2; nothing is ever guessed)
 //
@@ -16,6 +16,9 @@
 //	             << >> by a constant count (<< ↦ wrapT (a * 2^c), >> ↦ a / 2^c rounding down);
 //	             & | ^ only when both operand types are unsigned (Nat.land/lor/xor via Int.toNat).
 //	conversions  T(x) ↦ wrapT x.
+//	ideal        for selected functions a second definition <name>_ideal is emitted: the same body with
+//	             every wrap omitted (exact integers), so that "no wrap-around on domain D" is the
+//	             regenerated statement  name = name_ideal  on D.
 //	booleans     comparisons, && || !  (as decidable Props in if-conditions, as Bool values else).
 //	calls        builtin min/max; functions/methods of the allow-list below, which are translated
 //	             too; generic f[T](…) T is instantiated at the Go type of the call (clampS64 …);
@@ -24,8 +27,9 @@
 //	             recv_field per integer field used (declaration order, transitively through calls).
 //	tables       tbl[i] for a package-level array that is never written anywhere in its package
 //	             ↦ `tbl name i` (a List Int lookup; out-of-range, where Go panics, yields 0).
-//	statements   x := e, x = e, x op= e, x++/x--, var x T [= e]  ↦ let;  if/else and switch (tag-less
-//	             or constant-tagged, no fallthrough/break) with early return; return e.
+//	statements   x := e, x = e, x op= e, x++/x--  ↦ let;  if/else and switch (tag-less or constant-tagged,
+//	             no fallthrough/break) with early return — a branch either always returns or only
+//	             re-binds variables (no mixing);  return e.
 //	shape `cell` (history updates): a straight-line body whose last statement assigns one memory
 //	             cell; the cell (matched by source text) becomes parameter `h`, statements that do
 //	             not feed the new value are sliced away (they must be call-free), the result is the
@@ -53,6 +57,7 @@ type spec struct {
 	shape         string      // "", "cell", "colorloop"
 	atoms         [][3]string // opaque sub-expressions: source text, Lean parameter, Lean type
 	insts         []string    // generic: Go types to instantiate even if no translated caller needs them
+	ideal         bool        // also emit <lean>_ideal: the same body over exact integers (every wrap omitted)
 }
 
 var histAtoms = func(cell string) [][3]string { return [][3]string{{cell, "h", "Int"}} }
@@ -63,11 +68,11 @@ var specs = []spec{
 	{dir: "chess", fn: "Signum", lean: "signum", insts: []string{"int64", "int16"}},
 	{dir: "chess", fn: "Score.IsMate", lean: "isMate"},
 	{dir: "uci", fn: "timeControl.timedMode", lean: "timedMode"},
-	{dir: "uci", fn: "timeControl.softLimit", lean: "softLimit"},
-	{dir: "uci", fn: "timeControl.hardLimit", lean: "hardLimit"},
-	{dir: "transp", fn: "quality", lean: "quality"},
-	{dir: "transp", fn: "entry.Value", lean: "entryValue"},
-	{dir: "heur", fn: "History.Add", lean: "histAdd", shape: "cell", atoms: histAtoms("h.data[stm][from][to]")},
+	{dir: "uci", fn: "timeControl.softLimit", lean: "softLimit", ideal: true},
+	{dir: "uci", fn: "timeControl.hardLimit", lean: "hardLimit", ideal: true},
+	{dir: "transp", fn: "quality", lean: "quality", ideal: true},
+	{dir: "transp", fn: "entry.Value", lean: "entryValue", ideal: true},
+	{dir: "heur", fn: "History.Add", lean: "histAdd", shape: "cell", atoms: histAtoms("h.data[stm][from][to]"), ideal: true},
 	{dir: "heur", fn: "Continuation.Add", lean: "contAdd", shape: "cell", atoms: histAtoms("*entry")},
 	{dir: "heur", fn: "CaptHist.Add", lean: "captAdd", shape: "cell", atoms: histAtoms("c.data[moved][captured][sq]")},
 	{dir: "board", fn: "Board.InvalidPieceCount", lean: "invalidPieceCount", shape: "colorloop", atoms: [][3]string{
@@ -77,7 +82,7 @@ var specs = []spec{
 		{"(b.Colors[color] & b.Pieces[Rook]).Count()", "nRooks", "Int"},
 		{"(b.Colors[color] & b.Pieces[Queen]).Count()", "nQueens", "Int"},
 		{"(b.Colors[color] & b.Pieces[Pawn]).Count()", "nPawns", "Int"}}},
-	{dir: "search", fn: "bufIx", lean: "bufIx"},
+	{dir: "search", fn: "bufIx", lean: "bufIx", ideal: true},
 	{dir: "search", fn: "lmr", lean: "lmr"},
 	{dir: "search", fn: "nextNodeType", lean: "nextNodeType"},
 }
@@ -94,7 +99,7 @@ var consts = [][3]string{
 var constTables = [][3]string{{"heur", "PieceValues", "PieceValues"}}
 var tableNames = map[string]string{"search.log": "logTbl"} // allow-list of indexable tables
 
-const repo = "/repo/"
+var repo = "/repo/" // root of the tree to read (-repo; the process must run with cwd inside it)
 
 type gen struct {
 	pkgs   map[string]*lib.Pkg
@@ -138,7 +143,7 @@ func (g *gen) need(callee *types.Func, inst *types.Basic, at ast.Node, from *fnT
 	}
 	for _, s := range specs {
 		if strings.HasSuffix(callee.Pkg().Path(), "/"+s.dir) && s.fn == name && s.shape == "" {
-			return g.translate(s, inst)
+			return g.translate(s, inst, from.ideal)
 		}
 	}
 	from.die(at, "call of %s.%s, which is not on the allow-list", callee.Pkg().Name(), name)
@@ -146,7 +151,7 @@ func (g *gen) need(callee *types.Func, inst *types.Basic, at ast.Node, from *fnT
 }
 
 // translate emits the Lean definition of s (instance inst for generics) unless already done.
-func (g *gen) translate(s spec, inst *types.Basic) (string, []string) {
+func (g *gen) translate(s spec, inst *types.Basic, ideal bool) (string, []string) {
 	p := g.pkg(s.dir)
 	fd := p.Func(s.fn)
 	lean := s.lean
@@ -156,11 +161,14 @@ func (g *gen) translate(s spec, inst *types.Basic) (string, []string) {
 		}
 		lean += suffix(inst)
 	}
+	if ideal { // the exact-integer reading of the same source: no wrap anywhere
+		lean += "_ideal"
+	}
 	if f, ok := g.done[lean]; ok {
 		return lean, f
 	}
 	g.done[lean] = nil // (recursion would see no fields; recursive functions are outside the subset anyway)
-	t := &fnTr{g: g, p: p, fd: fd, inst: inst, fields: map[string]bool{}, atoms: map[string]string{}}
+	t := &fnTr{g: g, p: p, fd: fd, inst: inst, ideal: ideal, fields: map[string]bool{}, atoms: map[string]string{}}
 	var params []string // rendered Lean binders
 	for _, a := range s.atoms {
 		t.atoms[a[0]] = a[1]
@@ -234,7 +242,7 @@ func (g *gen) translate(s spec, inst *types.Basic) (string, []string) {
 	sig := strings.Join(params, " ") + " : " + res + " :=\n" + indent(body)
 	g.done[lean], g.bodies[lean] = fieldList, sig
 	g.prints = append(g.prints, fmt.Sprintf("%-18s %s.%s  %s", lean, s.dir, s.fn, p.Fingerprint(s.fn)))
-	g.defs = append(g.defs, fmt.Sprintf("/-- `%s.%s`%s (%s). -/\ndef %s %s", s.dir, s.fn, instNote(inst), p.Fset.Position(fd.Pos()), lean, sig))
+	g.defs = append(g.defs, fmt.Sprintf("/-- `%s.%s`%s%s (%s). -/\ndef %s %s", s.dir, s.fn, instNote(inst), idealNote(ideal), p.Fset.Position(fd.Pos()), lean, sig))
 	if s.shape == "colorloop" { // the loop itself: some colour makes the body return true
 		var w, b, decl []string
 		for _, a := range s.atoms {
@@ -250,6 +258,13 @@ func (g *gen) translate(s spec, inst *types.Basic) (string, []string) {
 				s.dir, s.fn, lean, strings.Join(decl, " "), lean, strings.Join(w, " "), lean, strings.Join(b, " "))
 	}
 	return lean, fieldList
+}
+
+func idealNote(ideal bool) string {
+	if ideal {
+		return ", exact-integer reading (no wrap-around)"
+	}
+	return ""
 }
 
 func instNote(b *types.Basic) string {
@@ -402,7 +417,9 @@ func isWritten(stack []ast.Node, e ast.Expr) bool {
 
 func main() {
 	out := flag.String("o", "", "write to this file (only if changed) instead of stdout")
+	root := flag.String("repo", "/repo", "root of the Go tree (a scratch worktree for mutation experiments)")
 	flag.Parse()
+	repo = strings.TrimRight(*root, "/") + "/"
 	g := &gen{pkgs: map[string]*lib.Pkg{}, done: map[string][]string{}, bodies: map[string]string{}}
 	var cs []string
 	for _, c := range consts {
@@ -421,10 +438,13 @@ func main() {
 	}
 	for _, s := range specs {
 		if len(s.insts) == 0 {
-			g.translate(s, nil)
+			g.translate(s, nil, false)
+			if s.ideal {
+				g.translate(s, nil, true)
+			}
 		}
 		for _, in := range s.insts {
-			g.translate(s, types.Universe.Lookup(in).Type().(*types.Basic))
+			g.translate(s, types.Universe.Lookup(in).Type().(*types.Basic), false)
 		}
 	}
 	// the three history updates must be literally the same formula
